@@ -305,7 +305,14 @@ def _worker(args):
     except Exception:  # noqa: BLE001
         res['err'] = 'setup: ' + traceback.format_exc(limit=3)
         return res
-    cov = LineCov(anchor_lines(prop.anchors).keys() if want_cov else [])
+    cov_files = set(anchor_lines(prop.anchors).keys()) if want_cov else set()
+    if want_cov and os.environ.get('VERIF_FULLCOV'):
+        # inventory mode (tools/coverage.py): every library module, not only the anchored files
+        for root, _dirs, fs in os.walk(os.path.join(REPO, 'bitcoin')):
+            if os.sep + 'tests' in root:
+                continue
+            cov_files.update(os.path.join(root, f) for f in fs if f.endswith('.py'))
+    cov = LineCov(cov_files)
     rng = random.Random('%s:%s:%s:%d' % (seed, prop.id, tier, shard))
     t0 = time.time()
     batch = []
@@ -495,6 +502,11 @@ def main_check(prop, modname, clsname, tier, seed):
     hits = set()
     for r in results:
         hits |= r['cov']
+    if os.environ.get('VERIF_FULLCOV'):
+        d = os.path.join(WORK, 'fullcov')
+        os.makedirs(d, exist_ok=True)
+        with open(os.path.join(d, prop.id + '.json'), 'w') as fh:
+            json.dump(sorted([os.path.relpath(f, REPO), l] for f, l in hits), fh)
     al = anchor_lines(prop.anchors)
     line_cov = {}
     for path, quals in al.items():
